@@ -1,82 +1,966 @@
+// C04 harness: journalled AccountDB (src/storage/account) vs the Coq model, plus direct evaluation
+// of the property on the implementation:
+//   (a) after every RevertToSnapshot the recorded queries answer as they did before the Snapshot;
+//   (b) IntermediateRoot(true|false) of (executed + reverted) equals the root of a reference
+//       AccountDB on which only the surviving operations were replayed.
 package main
 
 import (
+	"bytes"
+	"encoding/hex"
 	"fmt"
 	"math/big"
+	"sort"
+	"strings"
 
 	"com.tuntun.rangers/node/src/common"
+	crypto "com.tuntun.rangers/node/src/eth_crypto"
 	"com.tuntun.rangers/node/src/middleware/db"
+	"com.tuntun.rangers/node/src/middleware/types"
 	"com.tuntun.rangers/node/src/storage/account"
+	"com.tuntun.rangers/node/src/utility"
+	"golang.org/x/crypto/sha3"
+	"verif/harness/hx"
 )
 
-func addr(i byte) common.Address { return common.BytesToAddress([]byte{0xa0, i}) }
+// ---------- universe (model ids <-> real values) ----------
+const tokenID = 9
+
+var (
+	addrIDs   = []int{0, 1, 2, 3, 4, 5, tokenID}
+	addrOf    = map[int]common.Address{}
+	genKeys   = []int{0, 1, 2, 3}
+	keyOf     = map[int][]byte{}
+	allKeyIDs []int
+	codeBlobs = [][]byte{nil, {0x60, 0x00}, {0x60, 0x01, 0x60, 0x02, 0x01}, {0xfe}} // never empty: SetCode(a, empty) stores Keccak(empty) != emptyCodeHash (SHA3-256) and a later code load fails
+	hashID    = map[common.Hash]int{}
+	thashes   = []common.Hash{common.BytesToHash([]byte{0x77, 1}), common.BytesToHash([]byte{0x77, 2})}
+	boundTok  = common.HexToAddress("0x00000000000000000000000000000000000c0de9")
+	bindAddr  common.Address
+	ftName    = "ft"
+)
+
+func setupUniverse(token common.Address) {
+	addrOf[0] = common.HexToAddress("0x1000000000000000000000000000000000000a00")
+	addrOf[1] = common.HexToAddress("0x2000000000000000000000000000000000000a01")
+	addrOf[2] = common.HexToAddress("0x3000000000000000000000000000000000000a02")
+	addrOf[3] = common.StringToAddress("0000000000000000000000000000000000000003") // transition.go: ripemd
+	addrOf[4] = common.HexToAddress("0x5000000000000000000000000000000000000a04")
+	addrOf[5] = common.HexToAddress("0x6000000000000000000000000000000000000a05")
+	addrOf[tokenID] = token
+	for _, k := range genKeys {
+		keyOf[k] = common.BytesToHash([]byte{0xee, byte(k)}).Bytes()
+	}
+	keyOf[900] = utility.StrToBytes(common.GenerateFTKey(ftName))
+	adb := newDB()
+	s, _ := account.NewAccountDB(common.Hash{}, adb)
+	_, _, pos, _ := s.GetERC20Binding(common.BLANCE_NAME)
+	for _, a := range addrIDs {
+		keyOf[1000+a] = s.GetERC20Key(addrOf[a], pos)
+	}
+	allKeyIDs = allKeyIDs[:0]
+	seen := map[string]bool{}
+	for k, v := range keyOf {
+		allKeyIDs = append(allKeyIDs, k)
+		if seen[string(v)] {
+			panic("key universe not injective")
+		}
+		seen[string(v)] = true
+	}
+	sort.Ints(allKeyIDs)
+	hashID = map[common.Hash]int{}
+	hashID[common.Hash(sha3.Sum256(nil))] = 0
+	hashID[common.Hash{}] = 99
+	for i := 1; i < len(codeBlobs); i++ {
+		hashID[crypto.Keccak256Hash(codeBlobs[i])] = i
+	}
+	if len(hashID) != 2+len(codeBlobs)-1 {
+		panic("hash universe not injective")
+	}
+}
+
+func newDB() account.AccountDatabase {
+	m, _ := db.NewMemDatabase()
+	return account.NewDatabase(m)
+}
+
+// ---------- programs ----------
+type Op struct {
+	K    string // constructor name without the leading O
+	A, B int
+	Key  int
+	N    uint64
+	V    []byte
+	H    int
+}
+type Item struct {
+	Op   *Op
+	Obs  []*Op
+	Body []*Item
+	Rv   bool
+}
+
+var valuePool = [][]byte{{}, {1}, {5}, {0, 5}, {0}, {2, 3, 4}, append(make([]byte, 31), 7), append(make([]byte, 30), 1, 0), {0xff, 0xff, 0xff}}
+
+func isQuery(k string) bool {
+	switch k {
+	case "GetBalance", "GetNonce", "GetData", "GetCommitted", "GetCode", "GetCodeHash", "GetCodeSize", "Exist", "Suicided", "Empty",
+		"GetRefund", "GetLogs", "ALHasAddr", "ALHasSlot", "GetTransient", "GetFT":
+		return true
+	}
+	return false
+}
+
+func (o *Op) coq() string {
+	switch o.K {
+	case "SetNonce", "AddBalance", "SubBalance", "SetBalance", "AddFT", "SubFT", "SetFT":
+		return fmt.Sprintf("O%s %d %d", o.K, o.A, o.N)
+	case "IncNonce", "Suicide", "CreateAccount", "ALAddr", "GetBalance", "GetNonce", "GetCode", "GetCodeHash", "GetCodeSize", "Exist", "Suicided", "Empty", "ALHasAddr", "GetFT":
+		return fmt.Sprintf("O%s %d", o.K, o.A)
+	case "SetData":
+		return fmt.Sprintf("OSetData %d %d (x %s)", o.A, o.Key, hx.CoqHex(o.V))
+	case "Transfer":
+		return fmt.Sprintf("OTransfer %d %d %d", o.A, o.B, o.N)
+	case "SetCode":
+		return fmt.Sprintf("OSetCode %d %d (x %s)", o.A, o.H, hx.CoqHex(codeBlobs[o.H]))
+	case "AddLog", "AddRefund", "SubRefund":
+		return fmt.Sprintf("O%s %d", o.K, o.N)
+	case "ALSlot", "GetData", "GetCommitted", "ALHasSlot", "GetTransient":
+		return fmt.Sprintf("O%s %d %d", o.K, o.A, o.Key)
+	case "SetTransient":
+		return fmt.Sprintf("OSetTransient %d %d %d", o.A, o.Key, o.N)
+	case "GetRefund":
+		return "OGetRefund"
+	case "GetLogs":
+		return fmt.Sprintf("OGetLogs %d", o.H)
+	}
+	panic("coq: unknown op " + o.K)
+}
+
+func coqOps(l []*Op) string {
+	p := make([]string, len(l))
+	for i, o := range l {
+		p[i] = o.coq()
+	}
+	return "[" + strings.Join(p, "; ") + "]"
+}
+func coqItems(l []*Item) string {
+	p := make([]string, len(l))
+	for i, it := range l {
+		if it.Op != nil {
+			p[i] = "Do (" + it.Op.coq() + ")"
+		} else {
+			p[i] = fmt.Sprintf("Bracket %s %s %s", coqOps(it.Obs), coqItems(it.Body), hx.CoqBool(it.Rv))
+		}
+	}
+	return "[" + strings.Join(p, "; ") + "]"
+}
+
+type genCfg struct {
+	pCommitted, pTouch float64
+}
+
+func pickAddr(r *hx.Rng) int { return addrIDs[r.Intn(len(addrIDs))] }
+func pickKey(r *hx.Rng, a int) int {
+	if a == tokenID && r.Intn(3) > 0 {
+		return 1000 + pickAddr(r)
+	}
+	if r.Intn(8) == 0 {
+		return 900
+	}
+	return genKeys[r.Intn(len(genKeys))]
+}
+
+var exoticQueries bool
+
+func genQuery(r *hx.Rng) *Op {
+	a := pickAddr(r)
+	if exoticQueries && r.Intn(6) == 0 {
+		return &Op{K: "Empty", A: a}
+	}
+	switch r.Intn(16) {
+	case 0:
+		return &Op{K: "GetBalance", A: a}
+	case 1:
+		return &Op{K: "GetNonce", A: a}
+	case 2, 3:
+		return &Op{K: "GetData", A: a, Key: pickKey(r, a)}
+	case 4:
+		return &Op{K: "GetCode", A: a}
+	case 5:
+		return &Op{K: "GetCodeHash", A: a}
+	case 6:
+		return &Op{K: "GetCodeSize", A: a}
+	case 7:
+		return &Op{K: "Exist", A: a}
+	case 8:
+		return &Op{K: "Suicided", A: a}
+	case 9:
+		return &Op{K: "GetRefund"}
+	case 10:
+		return &Op{K: "GetLogs", H: r.Intn(2)}
+	case 11:
+		return &Op{K: "ALHasAddr", A: a}
+	case 12:
+		return &Op{K: "ALHasSlot", A: a, Key: genKeys[r.Intn(len(genKeys))]}
+	case 13:
+		return &Op{K: "GetTransient", A: a, Key: genKeys[r.Intn(len(genKeys))]}
+	case 14:
+		return &Op{K: "GetBalance", A: a}
+	}
+	return &Op{K: "GetData", A: a, Key: pickKey(r, a)}
+}
+
+// the queries the property lists, over the whole universe
+func fullObs(withData bool) []*Op {
+	var l []*Op
+	for _, a := range addrIDs {
+		l = append(l, &Op{K: "Exist", A: a}, &Op{K: "GetNonce", A: a}, &Op{K: "GetCodeHash", A: a}, &Op{K: "GetCode", A: a},
+			&Op{K: "GetCodeSize", A: a}, &Op{K: "Suicided", A: a}, &Op{K: "ALHasAddr", A: a})
+		for _, k := range genKeys {
+			l = append(l, &Op{K: "ALHasSlot", A: a, Key: k}, &Op{K: "GetTransient", A: a, Key: k})
+		}
+		if withData {
+			l = append(l, &Op{K: "GetBalance", A: a})
+			for _, k := range genKeys {
+				l = append(l, &Op{K: "GetData", A: a, Key: k})
+			}
+			l = append(l, &Op{K: "GetData", A: a, Key: 900})
+		}
+	}
+	if withData {
+		for _, a := range addrIDs {
+			l = append(l, &Op{K: "GetData", A: tokenID, Key: 1000 + a})
+		}
+	}
+	l = append(l, &Op{K: "GetRefund"}, &Op{K: "GetLogs", H: 0}, &Op{K: "GetLogs", H: 1})
+	return l
+}
+
+func genMut(r *hx.Rng, exotic bool) *Op {
+	a := pickAddr(r)
+	for {
+		switch r.Intn(26) {
+		case 0, 1:
+			return &Op{K: "SetNonce", A: a, N: uint64(r.Intn(4))}
+		case 2:
+			return &Op{K: "IncNonce", A: a}
+		case 3, 4, 5, 6:
+			return &Op{K: "SetData", A: a, Key: pickKey(r, a), V: valuePool[r.Intn(len(valuePool))]}
+		case 7, 8:
+			return &Op{K: "AddBalance", A: a, N: uint64(r.Intn(4) * 7)}
+		case 9:
+			return &Op{K: "SubBalance", A: a, N: uint64(r.Intn(4) * 5)}
+		case 10:
+			return &Op{K: "SetBalance", A: a, N: uint64(r.Intn(3) * 300)}
+		case 11:
+			return &Op{K: "Transfer", A: a, B: pickAddr(r), N: uint64(r.Intn(3) * 6)}
+		case 12:
+			return &Op{K: "SetCode", A: a, H: 1 + r.Intn(len(codeBlobs)-1)}
+		case 13:
+			return &Op{K: "Suicide", A: a}
+		case 14:
+			return &Op{K: "CreateAccount", A: a}
+		case 15:
+			return &Op{K: "AddLog", N: uint64(r.Intn(200))}
+		case 16:
+			return &Op{K: "AddRefund", N: uint64(r.Intn(50))}
+		case 17:
+			return &Op{K: "SubRefund", N: uint64(r.Intn(30))}
+		case 18:
+			return &Op{K: "ALAddr", A: a}
+		case 19:
+			return &Op{K: "ALSlot", A: a, Key: genKeys[r.Intn(len(genKeys))]}
+		case 20, 21:
+			return &Op{K: "SetTransient", A: a, Key: genKeys[r.Intn(len(genKeys))], N: uint64(r.Intn(3))}
+		case 22:
+			if exotic || r.Intn(4) == 0 {
+				n := uint64(r.Intn(3) * 4)
+				if exotic && r.Intn(2) == 0 {
+					n = 0
+				}
+				return &Op{K: "AddFT", A: a, N: n}
+			}
+		case 23:
+			if exotic || r.Intn(4) == 0 {
+				return &Op{K: "SubFT", A: a, N: uint64(r.Intn(3) * 3)}
+			}
+		case 24:
+			if exotic && r.Intn(2) == 0 {
+				return &Op{K: "GetCommitted", A: a, Key: pickKey(r, a)}
+			}
+			if r.Intn(4) == 0 {
+				return &Op{K: "SetFT", A: a, N: uint64(r.Intn(3) * 9)}
+			}
+		case 25:
+			return genQuery(r)
+		}
+	}
+}
+
+func genItems(r *hx.Rng, depth, n int, exotic bool) []*Item {
+	var l []*Item
+	for i := 0; i < n; i++ {
+		if depth > 0 && r.Intn(4) == 0 {
+			it := &Item{Rv: r.Intn(3) > 0}
+			switch r.Intn(5) {
+			case 0:
+				it.Obs = fullObs(true)
+			case 1:
+				it.Obs = fullObs(false)
+			case 2:
+			default:
+				for j := r.Intn(6); j > 0; j-- {
+					it.Obs = append(it.Obs, genQuery(r))
+				}
+			}
+			it.Body = genItems(r, depth-1, 1+r.Intn(5), exotic)
+			l = append(l, it)
+		} else {
+			l = append(l, &Item{Op: genMut(r, exotic)})
+		}
+	}
+	return l
+}
+
+// erase the reverted brackets: what the reference replays
+func erase(l []*Item) []*Item {
+	var o []*Item
+	for _, it := range l {
+		switch {
+		case it.Op != nil:
+			o = append(o, it)
+		case it.Rv:
+			for k := 0; k < 3; k++ {
+				for _, q := range it.Obs {
+					o = append(o, &Item{Op: q})
+				}
+			}
+		default:
+			o = append(o, &Item{Obs: it.Obs, Body: erase(it.Body), Rv: false})
+		}
+	}
+	return o
+}
+
+func walk(l []*Item, f func(o *Op, reverted bool), rev bool) {
+	for _, it := range l {
+		if it.Op != nil {
+			f(it.Op, rev)
+		} else {
+			walk(it.Body, f, rev || it.Rv)
+		}
+	}
+}
+
+// ---------- execution on the real AccountDB ----------
+type execCtx struct {
+	s          *account.AccountDB
+	answers    []string
+	concretise bool
+	brackets   []bracketObs
+	diverged   string
+}
+type bracketObs struct {
+	it            *Item
+	before, after []string
+}
+
+func big64(n uint64) *big.Int { return new(big.Int).SetUint64(n) }
+func coqBytes(b []byte) string { return "ABy (x " + hx.CoqHex(b) + ")" }
+func coqBig(b *big.Int) string  { return b.String() + "%N" }
+
+func (c *execCtx) step(o *Op) string {
+	s := c.s
+	a := addrOf[o.A]
+	switch o.K {
+	case "SetNonce":
+		s.SetNonce(a, o.N)
+	case "IncNonce":
+		return fmt.Sprintf("AN %d", s.IncreaseNonce(a))
+	case "SetData":
+		if len(o.V) == 0 && o.N == 1 {
+			s.RemoveData(a, keyOf[o.Key])
+		} else {
+			s.SetData(a, keyOf[o.Key], append([]byte{}, o.V...))
+		}
+	case "AddBalance":
+		s.AddBalance(a, big64(o.N))
+	case "SubBalance":
+		left := s.SubBalance(a, big64(o.N))
+		return "AN " + coqBig(left)
+	case "SetBalance":
+		s.SetBalance(a, big64(o.N))
+	case "Transfer":
+		s.Transfer(a, addrOf[o.B], big64(o.N))
+	case "SetCode":
+		s.SetCode(a, append([]byte{}, codeBlobs[o.H]...))
+	case "Suicide":
+		return "AB " + hx.CoqBool(s.Suicide(a))
+	case "CreateAccount":
+		s.CreateAccount(a)
+	case "AddLog":
+		s.AddLog(&types.Log{Address: a, Data: []byte{byte(o.N)}})
+	case "AddRefund":
+		s.AddRefund(o.N)
+	case "SubRefund":
+		if o.N > s.GetRefund() {
+			if c.concretise {
+				o.N = s.GetRefund()
+			} else {
+				c.diverged = "SubRefund beyond the refund counter in a replay"
+				return "AU"
+			}
+		}
+		s.SubRefund(o.N)
+	case "ALAddr":
+		s.AddAddressToAccessList(a)
+	case "ALSlot":
+		s.AddSlotToAccessList(a, common.BytesToHash(keyOf[o.Key]))
+	case "SetTransient":
+		s.SetTransientState(a, common.BytesToHash(keyOf[o.Key]), common.BigToHash(big64(o.N)))
+	case "AddFT":
+		return "AB " + hx.CoqBool(s.AddFT(a, ftName, big64(o.N)))
+	case "SubFT":
+		left, ok := s.SubFT(a, ftName, big64(o.N))
+		if !ok || left == nil {
+			return "AO None"
+		}
+		return "AO (Some " + coqBig(left) + ")"
+	case "SetFT":
+		s.SetFT(a, ftName, big64(o.N))
+	case "GetBalance":
+		return "AN " + coqBig(s.GetBalance(a))
+	case "GetNonce":
+		return fmt.Sprintf("AN %d", s.GetNonce(a))
+	case "GetData":
+		return coqBytes(s.GetData(a, keyOf[o.Key]))
+	case "GetCommitted":
+		h := s.GetCommittedState(a, common.BytesToHash(keyOf[o.Key]))
+		return "AN " + coqBig(h.Big())
+	case "GetCode":
+		return coqBytes(s.GetCode(a))
+	case "GetCodeHash":
+		id, ok := hashID[s.GetCodeHash(a)]
+		if !ok {
+			id = 12345
+		}
+		return fmt.Sprintf("AN %d", id)
+	case "GetCodeSize":
+		return fmt.Sprintf("AN %d", s.GetCodeSize(a))
+	case "Exist":
+		return "AB " + hx.CoqBool(s.Exist(a))
+	case "Suicided":
+		return "AB " + hx.CoqBool(s.HasSuicided(a))
+	case "Empty":
+		return "AB " + hx.CoqBool(s.Empty(a))
+	case "GetRefund":
+		return fmt.Sprintf("AN %d", s.GetRefund())
+	case "GetLogs":
+		var p []string
+		for _, l := range s.GetLogs(thashes[o.H]) {
+			p = append(p, fmt.Sprintf("lg %d %d", l.Data[0], l.Index))
+		}
+		return "AL [" + strings.Join(p, "; ") + "]"
+	case "ALHasAddr":
+		return "AB " + hx.CoqBool(s.AddressInAccessList(a))
+	case "ALHasSlot":
+		x, y := s.SlotInAccessList(a, common.BytesToHash(keyOf[o.Key]))
+		return "AP " + hx.CoqBool(x) + " " + hx.CoqBool(y)
+	case "GetTransient":
+		return "AN " + coqBig(s.GetTransientState(a, common.BytesToHash(keyOf[o.Key])).Big())
+	case "GetFT":
+		return "AN " + coqBig(s.GetFT(a, ftName))
+	default:
+		panic("step: unknown op " + o.K)
+	}
+	return "AU"
+}
+
+func (c *execCtx) ops(l []*Op) []string {
+	out := make([]string, len(l))
+	for i, o := range l {
+		out[i] = c.step(o)
+	}
+	c.answers = append(c.answers, out...)
+	return out
+}
+
+func (c *execCtx) run(l []*Item) {
+	for _, it := range l {
+		if it.Op != nil {
+			c.answers = append(c.answers, c.step(it.Op))
+			continue
+		}
+		c.ops(it.Obs) // first round: the queries' own side effects (cache fills, token-contract object)
+		before := c.ops(it.Obs)
+		id := c.s.Snapshot()
+		c.run(it.Body)
+		if it.Rv {
+			c.s.RevertToSnapshot(id)
+			after := c.ops(it.Obs)
+			c.brackets = append(c.brackets, bracketObs{it, before, after})
+		}
+	}
+}
+
+func execute(root common.Hash, adb account.AccountDatabase, prog []*Item, concretise bool) (c *execCtx, pan interface{}) {
+	s, err := account.NewAccountDB(root, adb)
+	if err != nil {
+		panic(err)
+	}
+	s.Prepare(thashes[0], common.BytesToHash([]byte{0xbb}), 0)
+	c = &execCtx{s: s, concretise: concretise}
+	defer func() {
+		if r := recover(); r != nil {
+			pan = r
+		}
+	}()
+	c.run(prog)
+	return c, nil
+}
+
+// ---------- dumps ----------
+type leaf struct {
+	exists bool
+	nonce  uint64
+	hash   int
+	store  map[int][]byte
+}
+
+func dump(root common.Hash, adb account.AccountDatabase) map[int]leaf {
+	s, err := account.NewAccountDB(root, adb)
+	if err != nil {
+		panic(err)
+	}
+	out := map[int]leaf{}
+	for _, a := range addrIDs {
+		ad := addrOf[a]
+		if !s.Exist(ad) {
+			continue
+		}
+		id, ok := hashID[s.GetCodeHash(ad)]
+		if !ok {
+			id = 12345
+		}
+		l := leaf{exists: true, nonce: s.GetNonce(ad), hash: id, store: map[int][]byte{}}
+		for _, k := range allKeyIDs {
+			if v := s.GetData(ad, keyOf[k]); len(v) > 0 {
+				l.store[k] = v
+			}
+		}
+		out[a] = l
+	}
+	return out
+}
+
+func coqDump(d map[int]leaf) string {
+	var p []string
+	for _, a := range addrIDs {
+		l, ok := d[a]
+		if !ok {
+			continue
+		}
+		var kv []string
+		for _, k := range allKeyIDs {
+			if v, ok := l.store[k]; ok {
+				kv = append(kv, fmt.Sprintf("kv %d %s", k, hx.CoqHex(v)))
+			}
+		}
+		p = append(p, fmt.Sprintf("da %d %d %d [%s]", a, l.nonce, l.hash, strings.Join(kv, "; ")))
+	}
+	return "[" + strings.Join(p, "; ") + "]"
+}
+
+func leafEq(x, y leaf) bool {
+	if x.exists != y.exists || x.nonce != y.nonce || x.hash != y.hash || len(x.store) != len(y.store) {
+		return false
+	}
+	for k, v := range x.store {
+		if !bytes.Equal(v, y.store[k]) {
+			return false
+		}
+	}
+	return true
+}
+
+// finalise: IntermediateRoot(del), then Commit(del) to be able to read the leaves back
+func finalise(c *execCtx, adb account.AccountDatabase, del bool) (ir, cr common.Hash, d map[int]leaf, err interface{}) {
+	defer func() {
+		if r := recover(); r != nil {
+			err = r
+		}
+	}()
+	ir = c.s.IntermediateRoot(del)
+	var e error
+	cr, e = c.s.Commit(del)
+	if e != nil {
+		return ir, cr, nil, e
+	}
+	if e = adb.TrieDB().Commit(cr, false); e != nil {
+		return ir, cr, nil, e
+	}
+	return ir, cr, dump(cr, adb), nil
+}
+
+// ---------- classification of direct violations ----------
+type progFacts struct {
+	revCommitted, revSuicide bool
+	revTouch                 map[int]bool // AddFT(a, 0) inside a reverted bracket
+	committed                map[[2]int]bool // GetCommittedState(a, k) anywhere in the program
+}
+
+func facts(prog []*Item) progFacts {
+	f := progFacts{revTouch: map[int]bool{}, committed: map[[2]int]bool{}}
+	walk(prog, func(o *Op, rev bool) {
+		if o.K == "GetCommitted" {
+			f.committed[[2]int{o.A, o.Key}] = true
+		}
+		if !rev {
+			return
+		}
+		switch {
+		case o.K == "GetCommitted":
+			f.revCommitted = true
+		case o.K == "Suicide":
+			f.revSuicide = true
+		case o.K == "AddFT" && o.N == 0:
+			f.revTouch[o.A] = true
+		}
+	}, false)
+	return f
+}
+
+func beVal(b []byte) *big.Int { return new(big.Int).SetBytes(b) }
 
 func main() {
+	a := hx.ParseArgs()
 	common.Init(0, "p.ini", "dev")
 	common.SetBlockHeight(10)
 	account.Init()
-	mdb, _ := db.NewMemDatabase()
-	adb := account.NewDatabase(mdb)
-	s, _ := account.NewAccountDB(common.Hash{}, adb)
-	fmt.Println("empty root", s.IntermediateRoot(false).Hex())
-	// committed state: A storage-only; X empty account; B with nonce
-	s.SetData(addr(1), []byte("k1"), []byte{1})
-	s.CreateAccount(addr(2)) // X empty
-	s.SetNonce(addr(3), 4)
-	root, err := s.Commit(false)
-	fmt.Println("commit", root.Hex(), err)
-	adb.TrieDB().Commit(root, false)
+	rng := hx.NewRng(a.Seed)
+	res := hx.NewResult("one evaluation = one reverted bracket (recorded queries before Snapshot vs after RevertToSnapshot) or one root comparison (executed+reverted vs reference replay of the surviving operations, per deleteEmptyObjects flag); nontrivial = at least one journalled mutation was executed inside a reverted bracket; distinct by program text")
+	cs := hx.NewCases(a.Out, "From V.C04 Require Import Model Harness.", "tcase", "check", 60)
 
-	fresh := func() *account.AccountDB { x, e := account.NewAccountDB(root, adb); if e != nil { panic(e) }; return x }
-	// 1 witness
-	{
-		s := fresh()
-		id := s.Snapshot()
-		s.SetNonce(addr(1), 7)
-		s.RevertToSnapshot(id)
-		fmt.Println("witness true ", s.IntermediateRoot(true).Hex(), " ref ", fresh().IntermediateRoot(true).Hex())
+	nCases := a.N
+	phase2At := nCases / 2
+	token := common.Address{}
+	setupUniverse(token)
+	bindAddr = common.GenerateERC20Binding(common.BLANCE_NAME)
+	sampled := 0
+
+	for ci := 0; ci < nCases; ci++ {
+		if ci == phase2At {
+			token = boundTok
+			setupUniverse(token)
+		}
+		r := rng.Fork()
+		p002 := r.Intn(8) != 0
+		exotic := r.Intn(5) == 0
+		if p002 {
+			common.LocalChainConfig.Proposal002Block = 0
+		} else {
+			common.LocalChainConfig.Proposal002Block = 1 << 60
+		}
+		// committed start state from a random prefix
+		adb := newDB()
+		s0, _ := account.NewAccountDB(common.Hash{}, adb)
+		if ci >= phase2At {
+			s0.AddERC20Binding(common.BLANCE_NAME, boundTok, 3, 18)
+		}
+		exoticQueries = false
+		pre := genItems(r, 1, r.Intn(14), false)
+		if r.Intn(3) == 0 { // storage-only / empty accounts are what the node's system accounts look like
+			pre = append(pre, &Item{Op: &Op{K: "SetData", A: r.Intn(3), Key: r.Intn(4), V: []byte{9}}}, &Item{Op: &Op{K: "CreateAccount", A: 4 + r.Intn(2)}})
+		}
+		pc := &execCtx{s: s0, concretise: true}
+		func() {
+			defer func() { recover() }()
+			pc.run(pre)
+		}()
+		// directed fragments for the rarer interactions (zero-amount AddFT on an empty committed account,
+		// self-destruct of an account whose balance slot holds a 32-byte EVM-style value, GetCommittedState
+		// on a modified slot); the random program is built around them
+		var inject []*Item
+		delCommit := r.Intn(3) == 0
+		switch r.Intn(14) {
+		case 0:
+			x := r.Intn(6)
+			pre = []*Item{{Op: &Op{K: "CreateAccount", A: x}}, {Op: &Op{K: "SetData", A: (x + 1) % 6, Key: 1, V: []byte{3}}}}
+			delCommit = false
+			inject = []*Item{{Body: []*Item{{Op: &Op{K: "AddFT", A: x, N: 0}}}, Rv: true, Obs: []*Op{{K: "GetNonce", A: x}}},
+				{Op: &Op{K: "SetNonce", A: x, N: 1 + uint64(r.Intn(3))}}}
+		case 1:
+			x := r.Intn(6)
+			pre = append(pre, &Item{Op: &Op{K: "SetNonce", A: x, N: 1}}, &Item{Op: &Op{K: "SetData", A: tokenID, Key: 1000 + x, V: append(make([]byte, 31), byte(1+r.Intn(9)))}})
+			inject = []*Item{{Body: []*Item{{Op: &Op{K: "Suicide", A: x}}}, Rv: true, Obs: []*Op{{K: "GetBalance", A: x}, {K: "GetData", A: tokenID, Key: 1000 + x}}}}
+		case 2:
+			x, k := r.Intn(6), r.Intn(4)
+			pre = append(pre, &Item{Op: &Op{K: "SetData", A: x, Key: k, V: []byte{4}}})
+			inject = []*Item{{Op: &Op{K: "SetData", A: x, Key: k, V: []byte{8}}},
+				{Body: []*Item{{Op: &Op{K: "GetCommitted", A: x, Key: k}}}, Rv: true, Obs: []*Op{{K: "GetData", A: x, Key: k}}}}
+		}
+		pc = &execCtx{s: s0, concretise: true}
+		if inject != nil {
+			s0, _ = account.NewAccountDB(common.Hash{}, adb)
+			if ci >= phase2At {
+				s0.AddERC20Binding(common.BLANCE_NAME, boundTok, 3, 18)
+			}
+			pc = &execCtx{s: s0, concretise: true}
+			func() {
+				defer func() { recover() }()
+				pc.run(pre)
+			}()
+		}
+		root0, err := s0.Commit(delCommit)
+		if err != nil {
+			panic(err)
+		}
+		adb.TrieDB().Commit(root0, false)
+		start := dump(root0, adb)
+
+		exoticQueries = exotic
+		prog := genItems(r, 3, 2+r.Intn(10), exotic)
+		if inject != nil {
+			at := r.Intn(len(prog) + 1)
+			prog = append(append(append([]*Item{}, prog[:at]...), inject...), prog[at:]...)
+		}
+		ptxt := coqItems(prog)
+		f := facts(prog)
+
+		// run 1 (concretises SubRefund amounts), finalise(false)
+		c1, pan := execute(root0, adb, prog, true)
+		ptxt = coqItems(prog)
+		if pan != nil {
+			res.Violate("C04/panic:execute", fmt.Sprint(pan), ptxt)
+			res.Count("panic", ptxt, false)
+			continue
+		}
+		c2, pan2 := execute(root0, adb, prog, false)
+		if pan2 != nil || strings.Join(c1.answers, ";") != strings.Join(c2.answers, ";") {
+			res.Violate("C04/nondeterministic", "two executions of the same program on the same committed state answer differently", ptxt)
+			continue
+		}
+		muts := 0
+		walk(prog, func(o *Op, rev bool) {
+			if rev && !isQuery(o.K) {
+				muts++
+			}
+		}, false)
+		class := "p002"
+		if !p002 {
+			class = "pre002"
+		}
+		if ci >= phase2At {
+			class += "/bound-token"
+		} else {
+			class += "/unbound-token"
+		}
+
+		// (a) queries before the snapshot vs after the revert
+		for bi, b := range c1.brackets {
+			ok := true
+			for i := range b.before {
+				if b.before[i] == b.after[i] {
+					continue
+				}
+				ok = false
+				q := b.it.Obs[i]
+				bf := facts([]*Item{b.it})
+				key := "C04/revert:" + q.K
+				switch {
+				case !p002 && (q.K == "GetBalance" || (q.K == "GetData" && q.A == tokenID)):
+					key = "C04/revert:balance-unjournaled-before-proposal002"
+				case q.K == "Empty":
+					key = "C04/revert:Empty-depends-on-storage-caches"
+				case bf.revCommitted && (q.K == "GetData" || q.K == "GetBalance" || q.K == "GetFT"):
+					key = "C04/revert:getcommittedstate-overwrites-cache"
+				case bf.revSuicide && q.K == "GetData" && q.A == tokenID && q.Key >= 1000 &&
+					strings.HasPrefix(b.before[i], "ABy") && beEq(b.before[i], b.after[i]):
+					key = "C04/revert:suicide-undo-reencodes-balance-slot"
+				}
+				res.Violate(key, fmt.Sprintf("query %s answered %s before Snapshot and %s after RevertToSnapshot", q.coq(), b.before[i], b.after[i]),
+					map[string]interface{}{"p002": p002, "token_bound": ci >= phase2At, "start": coqDump(start), "program": ptxt, "bracket": coqItems([]*Item{b.it})})
+			}
+			cl := class + "/revert-ok"
+			if !ok {
+				cl = class + "/revert-differs"
+			}
+			res.Count(cl, fmt.Sprintf("%s#%d", ptxt, bi), muts > 0 && len(b.before) > 0)
+		}
+
+		// (b) roots: executed+reverted vs reference replay
+		ref := erase(prog)
+		var fin [2]map[int]leaf
+		bad := false
+		for di, del := range []bool{false, true} {
+			cx := c1
+			if del {
+				cx = c2
+			}
+			ir, cr, d, e := finalise(cx, adb, del)
+			if e != nil {
+				res.Violate("C04/panic:finalise", fmt.Sprint(e), ptxt)
+				bad = true
+				break
+			}
+			fin[di] = d
+			if ir != cr {
+				res.Violate("C04/commit-differs-from-intermediate-root", fmt.Sprintf("IntermediateRoot(%v)=%s Commit(%v)=%s", del, ir.Hex(), del, cr.Hex()), ptxt)
+			}
+			rc, rp := execute(root0, adb, ref, false)
+			if rp != nil || rc.diverged != "" {
+				res.Violate("C04/reference-replay-diverged", fmt.Sprint(rp, rc.diverged), ptxt)
+				bad = true
+				break
+			}
+			rir, _, rd, e2 := finalise(rc, adb, del)
+			if e2 != nil {
+				res.Violate("C04/panic:finalise-reference", fmt.Sprint(e2), ptxt)
+				bad = true
+				break
+			}
+			cl := fmt.Sprintf("%s/root-equal(del=%v)", class, del)
+			if rir != ir {
+				cl = fmt.Sprintf("%s/root-differs(del=%v)", class, del)
+				key, what := classifyRoot(d, rd, start, del, p002, f)
+				res.Violate(key, what, map[string]interface{}{"deleteEmptyObjects": del, "p002": p002, "token_bound": ci >= phase2At,
+					"start": coqDump(start), "program": ptxt, "reference_program": coqItems(ref),
+					"root": ir.Hex(), "reference_root": rir.Hex(), "leaves": coqDump(d), "reference_leaves": coqDump(rd)})
+			}
+			res.Count(cl, fmt.Sprintf("%s/%v", ptxt, del), muts > 0)
+		}
+		if bad {
+			continue
+		}
+		// model case
+		term := fmt.Sprintf("Case %s %s %d %s 0 %s [%s] %s %s", coqDump(start), coqCodes(), tokenID, hx.CoqBool(p002), ptxt,
+			strings.Join(c1.answers, "; "), coqDump(fin[0]), coqDump(fin[1]))
+		if len(term) < 60000 {
+			cs.Add(term, map[string]interface{}{"p002": p002, "token_bound": ci >= phase2At, "start": coqDump(start), "program": ptxt})
+		}
+		if sampled < 8 && ci%37 == 0 {
+			sampled++
+			res.Sample(map[string]interface{}{"p002": p002, "start": coqDump(start), "program": trunc(ptxt, 600), "answers": len(c1.answers),
+				"leaves_after_IntermediateRoot(false)": trunc(coqDump(fin[0]), 300)})
+		}
 	}
-	// 2 touch
-	{
-		s := fresh()
-		fmt.Println("X exists", s.Exist(addr(2)), "empty", s.Empty(addr(2)))
-		id := s.Snapshot()
-		s.AddFT(addr(2), "ft", big.NewInt(0))
-		s.RevertToSnapshot(id)
-		s.SetNonce(addr(2), 5)
-		r := fresh()
-		r.SetNonce(addr(2), 5)
-		fmt.Println("touch false ", s.IntermediateRoot(false).Hex(), " ref ", r.IntermediateRoot(false).Hex(), "nonce", s.GetNonce(addr(2)))
+	cs.Close()
+	res.ModelCases = cs.Total()
+	res.Write(a.Out)
+}
+
+func coqCodes() string {
+	var p []string
+	for i := 1; i < len(codeBlobs); i++ {
+		p = append(p, fmt.Sprintf("kv %d %s", i, hx.CoqHex(codeBlobs[i])))
 	}
-	// 3 suicide eval order, token contract absent
-	{
-		s := fresh()
-		fmt.Println("zero exists before", s.Exist(common.Address{}))
-		id := s.Snapshot()
-		ok := s.Suicide(addr(3))
-		fmt.Println("suicide", ok, "zero exists mid", s.Exist(common.Address{}))
-		s.RevertToSnapshot(id)
-		fmt.Println("zero exists after", s.Exist(common.Address{}), "suicided", s.HasSuicided(addr(3)))
-		fmt.Println("suicide false ", s.IntermediateRoot(false).Hex(), " ref ", fresh().IntermediateRoot(false).Hex())
+	return "[" + strings.Join(p, "; ") + "]"
+}
+
+func trunc(s string, n int) string {
+	if len(s) > n {
+		return s[:n] + "…"
 	}
-	// 4 GetBalance side effect
-	{
-		s := fresh()
-		s.GetBalance(addr(3))
-		fmt.Println("getbalance false ", s.IntermediateRoot(false).Hex(), " ref ", fresh().IntermediateRoot(false).Hex())
-		s = fresh()
-		s.GetBalance(addr(3))
-		fmt.Println("getbalance true ", s.IntermediateRoot(true).Hex(), " ref ", fresh().IntermediateRoot(true).Hex())
+	return s
+}
+
+// both answers are `ABy (x "hex")`; equal as big-endian numbers?
+func beEq(x, y string) bool {
+	hx1 := func(s string) []byte {
+		i, j := strings.Index(s, "\""), strings.LastIndex(s, "\"")
+		if i < 0 || j <= i {
+			return nil
+		}
+		b, _ := hex.DecodeString(s[i+1 : j])
+		return b
 	}
-	// 5 Empty changes across revert
-	{
-		s := fresh()
-		e0 := s.Empty(addr(1))
-		id := s.Snapshot()
-		s.SetData(addr(1), []byte("k1"), []byte{2})
-		s.RevertToSnapshot(id)
-		fmt.Println("Empty(A) before", e0, "after", s.Empty(addr(1)))
+	return beVal(hx1(x)).Cmp(beVal(hx1(y))) == 0
+}
+
+// classifyRoot names the cause of a root difference from the leaf-level diff of the two account tries.
+func classifyRoot(got, ref, start map[int]leaf, del, p002 bool, f progFacts) (string, string) {
+	var keys []string
+	var what []string
+	for _, a := range addrIDs {
+		g, r := got[a], ref[a]
+		if leafEq(g, r) {
+			continue
+		}
+		key := fmt.Sprintf("C04/root-after-revert:unclassified(addr=%d)", a)
+		emptyish := func(l leaf) bool { return l.exists && l.nonce == 0 && l.hash == 0 }
+		switch {
+		case del && g.exists != r.exists && (emptyish(g) || emptyish(r)):
+			x := g
+			if r.exists {
+				x = r
+			}
+			if len(x.store) > 0 {
+				key = "C04/root-after-revert:empty-ignores-committed-storage"
+			} else {
+				key = "C04/root-after-revert:empty-counts-cache-entries"
+			}
+		case !p002 && a == tokenID:
+			key = "C04/root-after-revert:balance-unjournaled-before-proposal002"
+		case f.revTouch[a] && leafEq(g, start[a]):
+			key = "C04/root-after-revert:touch-undo-leaves-dirty-callback-disarmed"
+		case g.exists && r.exists && g.nonce == r.nonce && g.hash == r.hash && storeDiffWithin(g.store, r.store, func(k int) bool { return f.committed[[2]int{a, k}] }):
+			// GetCommittedData overwrote the cache entry of a modified slot; a later SetData journalled the overwritten value
+			key = "C04/root-after-revert:getcommittedstate-overwrites-cache"
+		case a == tokenID && f.revSuicide && g.exists && r.exists && g.nonce == r.nonce && g.hash == r.hash && storeNumEq(g.store, r.store):
+			key = "C04/root-after-revert:suicide-undo-reencodes-balance-slot"
+		}
+		keys = append(keys, key)
+		show := func(l leaf) string {
+			if !l.exists {
+				return "absent"
+			}
+			return coqDump(map[int]leaf{a: l})
+		}
+		what = append(what, fmt.Sprintf("account %d: got %s, reference %s", a, show(g), show(r)))
 	}
-	common.LocalChainConfig.Proposal002Block = 1000
-	fmt.Println("p002", common.IsProposal002())
+	if len(keys) == 0 {
+		return "C04/root-after-revert:unclassified(no-leaf-in-universe-differs)", "roots differ but every leaf of the universe agrees"
+	}
+	sort.Strings(keys)
+	// an unclassified leaf must never hide behind a classified one
+	for _, k := range keys {
+		if strings.Contains(k, "unclassified") {
+			return k, strings.Join(what, "; ")
+		}
+	}
+	return keys[0], strings.Join(what, "; ")
+}
+
+func storeDiffWithin(x, y map[int][]byte, ok func(int) bool) bool {
+	for k, v := range x {
+		if !bytes.Equal(v, y[k]) && !ok(k) {
+			return false
+		}
+	}
+	for k, v := range y {
+		if !bytes.Equal(v, x[k]) && !ok(k) {
+			return false
+		}
+	}
+	return true
+}
+
+func storeNumEq(x, y map[int][]byte) bool {
+	ks := map[int]bool{}
+	for k := range x {
+		ks[k] = true
+	}
+	for k := range y {
+		ks[k] = true
+	}
+	for k := range ks {
+		if bytes.Equal(x[k], y[k]) {
+			continue
+		}
+		if k < 1000 || beVal(x[k]).Cmp(beVal(y[k])) != 0 {
+			return false
+		}
+	}
+	return true
 }
